@@ -133,6 +133,36 @@ def main():
                         if r1 != r2 or P.proj(u, emb, is_set) != P.proj(twin, emb, is_set):
                             mism.append(dict(where, kind='roundtrip-unusable', trip=name, after=a))
                             break
+        # fs leaves: toBytes() is all keys then all values; fromBytes() rebuilds the leaf (C and Python alike)
+        if fam == 'fs' and not is_set and 'c' in objs and 'py' in objs:
+            mleaves = []
+
+            def _ml(p):
+                if p['t'] == 'L':
+                    mleaves.append(p)
+                else:
+                    for c_ in p['kids']:
+                        _ml(c_)
+            _ml(tr['to'])
+            for impl_, classes_ in (('c', cC), ('py', cP)):
+                for li, leaf in enumerate(P.collect_leaves(objs[impl_])):
+                    want_b = b''.join(emb.key(k) for k in mleaves[li]['ks']) + b''.join(emb.val(v) for v in mleaves[li]['vs'])
+                    wantback = [[k, v] for k, v in zip(mleaves[li]['ks'], mleaves[li]['vs'])]
+                    try:
+                        got_b = leaf.toString()         # (the spelling both implementations offer)
+                        back = wantback
+                        if impl_ == 'c':                # toBytes / fromBytes / fromString exist in the C type only
+                            if leaf.toBytes() != got_b:
+                                got_b = 'toBytes differs from toString'
+                            nb = classes_[1]()
+                            nb.fromBytes(got_b)
+                            back = [[emb.rk(k), emb.rv(v)] for k, v in nb.items()]
+                    except Exception as e:
+                        got_b, back = repr(e), None
+                    if got_b != want_b or back != wantback:
+                        mism.append(dict(fam=fam, impl=impl_, is_set=is_set, sizes=[job['leaf'], job['internal']], ti=ti, act=tr['act'],
+                                         kind='fs-toBytes', model=repr(want_b), real=[repr(got_b), back]))
+                    counts['roundtrips'] += 1
         # C and Python pickles byte for byte
         if 'c' in objs and 'py' in objs:
             for proto in range(0, pickle.HIGHEST_PROTOCOL + 1):
